@@ -2011,12 +2011,13 @@ def bag_range(n, npartitions):
     """
     size = n // npartitions
     name = f"range-{n}-npartitions-{npartitions}"
-    ijs = list(enumerate(take(npartitions, range(0, n, size))))
-    dsk = {(name, i): (reify, (range, j, min(j + size, n))) for i, j in ijs}
-
-    if n % npartitions != 0:
-        i, j = ijs[-1]
-        dsk[(name, i)] = (reify, (range, j, n))
+    # ``size`` numbers per partition, the last partition takes the remainder
+    # (everything, when there are fewer numbers than partitions)
+    dsk = {
+        (name, i): (reify, (range, i * size, (i + 1) * size))
+        for i in range(npartitions - 1)
+    }
+    dsk[(name, npartitions - 1)] = (reify, (range, (npartitions - 1) * size, n))
 
     return Bag(dsk, name, npartitions)
 
